@@ -504,17 +504,19 @@ def insertAsc (x : Addr) : List Addr → List Addr
   | [] => [x]
   | y :: ys => if x < y then x :: y :: ys else if x = y then y :: ys else y :: insertAsc x ys
 
-/-- `Finalise`: account objects -/
+/-- `Finalise` on one dirtied live object -/
+def finaliseObj (del : Bool) (o : Obj) : Obj :=
+  if o.suicided || (del && o.isEmpty) then { o with deleted := true } else { o with committed := o.storage }
+
+/-- `Finalise`: account objects.  An address is hit when the journal dirtied it and a live object exists. -/
 def finaliseAcc (del : Bool) (dirty : Addr → Nat) (d : AccData) : AccData :=
-  let hit (a : Addr) : Bool := dirty a > 0 && (d.objs a).isSome
   { d with
     objs := fun a =>
-      if hit a then
-        (d.objs a).map fun o =>
-          if o.suicided || (del && o.isEmpty) then { o with deleted := true } else { o with committed := o.storage }
-      else d.objs a
-    pending := fun a => hit a || d.pending a
-    dirtyObjs := fun a => hit a || d.dirtyObjs a
+      match d.objs a with
+      | some o => if dirty a > 0 then some (finaliseObj del o) else some o
+      | none => none
+    pending := fun a => if dirty a > 0 then (d.objs a).isSome || d.pending a else d.pending a
+    dirtyObjs := fun a => if dirty a > 0 then (d.objs a).isSome || d.dirtyObjs a else d.dirtyObjs a
     refund := 0
     extra := fun _ => 0 }
 
@@ -535,12 +537,19 @@ def Val.isInvalid (v : Val) : Bool := v.token % U64 == 0 && v.stake % U64 == 0
 def leafOf (o : Obj) : Leaf :=
   { nonce := o.nonce, balance := o.balance, code := o.code, storage := o.storage, dlgBalance := o.dlgBalance, dlgs := o.dlgs }
 
-/-- `IntermediateRoot` after its `Finalise`: flush pending objects and dirty validators into the tries -/
+/-- `updateRoot` of a pending object -/
+def flushObj (o : Obj) : Obj :=
+  if o.deleted then o else { o with committed := o.storage, trieStorage := o.storage }
+
+/-- `IntermediateRoot` after its `Finalise`: flush pending objects into the account trie -/
 def flushAcc (d : AccData) : AccData :=
   { d with
-    objs := fun a => if d.pending a then (d.objs a).map fun o =>
-        if o.deleted then o else { o with committed := o.storage, trieStorage := o.storage } else d.objs a
-    trie := fun a => if d.pending a then
+    objs := fun a =>
+      match d.objs a with
+      | some o => if d.pending a then some (flushObj o) else some o
+      | none => none
+    trie := fun a =>
+      if d.pending a then
         match d.objs a with
         | some o => if o.deleted then none else some (leafOf o)
         | none => d.trie a
